@@ -104,6 +104,12 @@ type IterV struct {
 
 type ChanV struct{ id int }
 
+// ByteCell is &b[i] for an opaque []byte b.
+type ByteCell struct {
+	B ByteSlice
+	I *Term
+}
+
 // LazyV is a contract value that is computed (possibly forking) only when the code under
 // analysis first looks at it: fields of library results that most callers never read.
 type LazyV struct {
